@@ -19,3 +19,15 @@ func VerifNewGrandpaMessage() scale.VaryingDataType {
 	m := newGrandpaMessage()
 	return &m
 }
+
+// VerifJustificationToCompact exposes justificationToCompact (message.go): the signed precommits of a
+// commit split into the two pairwise aligned vectors of the CommitMessage that goes on the wire.
+func VerifJustificationToCompact(just []SignedVote) ([]Vote, []AuthData) {
+	return justificationToCompact(just)
+}
+
+// VerifCompactToJustification exposes compactToJustification (message.go): the inverse, applied to a
+// received CommitMessage before its precommits are stored (grandpa.go handleCommitMessage).
+func VerifCompactToJustification(vs []Vote, auths []AuthData) ([]SignedVote, error) {
+	return compactToJustification(vs, auths)
+}
